@@ -18,12 +18,16 @@ import numpy as np
 from vlib import core
 from harness import mps_common as mc
 from harness import mps_extra as mx
+from harness import c08_ext as cx
 
 sys.path.insert(0, str(core.ROOT / 'tools'))
 
 PROP = 'C08'
-MODEL_MODULES = ['TenpyModel.Util.J', 'TenpyModel.MPS.Eval']
-PROPS_MODULES = ['TenpyModel.C08.Props', 'TenpyModel.C08.PropsMPS', 'TenpyModel.C08.Props2']
+MODEL_MODULES = ['TenpyModel.Util.J', 'TenpyModel.MPS.Eval', 'TenpyModel.C08.ExtCorr', 'TenpyModel.C08.ExtSample',
+                 'TenpyModel.C08.ExtArgs', 'TenpyModel.C08.ExtEval']
+PROPS_MODULES = ['TenpyModel.C08.Props', 'TenpyModel.C08.PropsMPS', 'TenpyModel.C08.Props2',
+                 'TenpyModel.C08.PropsExtCorr', 'TenpyModel.C08.PropsExtCorrMat', 'TenpyModel.C08.PropsExtSample',
+                 'TenpyModel.C08.PropsExtArgs']
 LEVEL = 'proof'
 BUDGET = {'quick': 200, 'thorough': 1500}
 RULE = ('kets and bras from from_full / random block-sparse tensors + canonical_form / from_singlets / product states '
@@ -35,12 +39,19 @@ RULE = ('kets and bras from from_full / random block-sparse tensors + canonical_
         'expectation_value_terms_sum, get_rho_segment (consecutive and not), mutinf_two_site, '
         'probability_per_charge/average_charge/charge_variance, sample_measurements (amplitude and probability, '
         'partial ranges, eigenbases), MPSEnvironment(bra, ket) variants of the expectation values; infinite MPS on '
-        'a window and segment MPS. Non-trivial: some bond dimension > 1; distinct by content hash.')
+        'a window and segment MPS. Non-trivial: some bond dimension > 1; distinct by content hash. '
+        'Extension part (harness/c08_ext.py, own PRNG stream "ext", driver C08): _corr_up_diag with 1..L-1 targets and both '
+        'operator orders, correlation_function matrices with sites None/int/list, hermitian flag used properly / '
+        'switched off / misused, duplicate sites (malformed), sample_measurements on windows of finite and infinite '
+        'MPS with lists of measurement bases and the probability flag, empty / out-of-range windows, '
+        'expectation_value argument parsing (n-site operators, default and explicit sites, wrong axes, windows '
+        'beyond the chain), get_op on every index of -2L..3L, mutinf_two_site coordinates, default j_R.')
 TRUSTED = ['Lean 4.33 kernel; axioms of every C08_* theorem ⊆ {propext, Classical.choice, Quot.sound}',
            'model lean/TenpyModel/MPS/{Chain,Basic,Measure}.lean tied to tenpy/networks/mps.py by this run',
            'dense oracle: numpy kron operators built from Site.get_op(...).to_ndarray() (operator tables are C12), '
            'Jordan-Wigner strings inserted explicitly from Site.JW',
-           'serialiser harness/mps_common.py, driver lean/drivers/C07.lean']
+           'serialiser harness/mps_common.py, drivers lean/drivers/C07.lean and lean/drivers/C08.lean '
+           '(tabulated evaluation lean/TenpyModel/C08/ExtEval.lean, cross-checked against the literal definitions by selfcheck lines)']
 ASSUMPTIONS = ['LAPACK eigh/eigvalsh inside mutinf/entropy functions and the MPO route of expectation_value_terms_sum '
                'are compared numerically (1e-9 / 1e-8), not modelled']
 
@@ -185,6 +196,8 @@ def mat_enc(m):
 
 
 def eval_case(case):
+    if case['kind'] == 'ext':
+        return cx.eval_ext(case)
     if case['kind'] == 'extra':
         return mx.eval_c08(case)
     if case['kind'] == 'inf':
@@ -690,12 +703,18 @@ def run(ctx):
     res.extra['anchor_coverage_note'] = ANCHOR_COVERAGE_NOTE
     rng = ctx.sub_rng('cases')
     n = 150 if ctx.quick else 4000
-    cases = corpus_cases() + gen_cases(rng, n, ctx.quick)
+    cases = [c for c in corpus_cases() if c.get('kind') != 'ext'] + gen_cases(rng, n, ctx.quick)
     xr = ctx.sub_rng('extra')
     cases += mx.gen_extras(xr, mx.C08_SUBS, 70 if ctx.quick else 1050)
     results, derrs = mc.run_cases(ctx, PROP, 'harness.C08', 'eval_case', cases,
-                                  budget_s=ctx.budget_s * 0.8 if not ctx.quick else None)
-    return mc.fold_results(res, results, derrs, PROP)
+                                  budget_s=ctx.budget_s * 0.6 if not ctx.quick else None)
+    # extension part: newly modelled code (own PRNG stream, own driver)
+    er = ctx.sub_rng('ext')
+    ecases = [c for c in corpus_cases() if c.get('kind') == 'ext'] + cx.gen_cases(er, 120 if ctx.quick else 3000, ctx.quick)
+    eres, ederrs = mc.run_cases(ctx, PROP, 'harness.c08_ext', 'eval_ext', ecases, driver='C08',
+                                budget_s=ctx.budget_s * 0.25 if not ctx.quick else None)
+    res.extra['ext_cases'] = len(eres)
+    return mc.fold_results(res, results + eres, derrs + ederrs, PROP)
 
 
 def corpus_cases():
@@ -714,9 +733,11 @@ def eval_oracle_only(case):
 def search(ctx, reasons):
     res = core.Result()
     rng = ctx.sub_rng('search')
-    cases = corpus_cases() + gen_cases(rng, 200 if ctx.quick else 3000, ctx.quick)
+    cases = [c for c in corpus_cases() if c.get('kind') != 'ext'] + gen_cases(rng, 200 if ctx.quick else 3000, ctx.quick)
     results, _ = mc.run_cases(ctx, PROP, 'harness.C08', 'eval_oracle_only', cases)
-    for r in results:
+    eres, _ = mc.run_cases(ctx, PROP, 'harness.c08_ext', 'eval_ext_oracle_only',
+                           cx.gen_cases(ctx.sub_rng('search-ext'), 150 if ctx.quick else 2000, ctx.quick))
+    for r in results + eres:
         if r['skip']:
             continue
         res.note_case(r['case'], r['nontrivial'])
@@ -730,5 +751,6 @@ def replay(ctx, payload):
     case = payload.get('case') or {}
     if not case:
         return run(ctx)
-    results, derrs = mc.run_cases(ctx, PROP, 'harness.C08', 'eval_case', [case], procs=1)
+    results, derrs = mc.run_cases(ctx, PROP, 'harness.C08', 'eval_case', [case], procs=1,
+                                  driver='C08' if case.get('kind') == 'ext' else 'C07')
     return mc.fold_results(res, results, derrs, PROP)
